@@ -34,6 +34,7 @@ def shards(tier):
         {"name": "big.np.jit", "mode": "jit", "backend": "np", "fn": "big", "n": 2 if q else 40},
         {"name": "big.np.interp", "mode": "interp", "backend": "np", "fn": "big", "n": 1 if q else 4},
         {"name": "big.torch", "mode": "jit", "backend": "torch", "fn": "big", "n": 1 if q else 6},
+        {"name": "forms.torch", "mode": "jit", "backend": "torch", "fn": "rand", "n": 40 if q else 1200, "forms": 1},
     ]
     if not q:
         for k in range(4):
